@@ -40,7 +40,7 @@ LEVEL_NOTE = ("Trusts CPython's audit hooks (PEP 578) for eval/exec/compile/os.s
 
 
 def plan(tier):
-    return {"cases": 2500, "wall_s": 150} if tier == "quick" else {"cases": 60000, "wall_s": 1700}
+    return {"cases": 4000, "wall_s": 150} if tier == "quick" else {"cases": 60000, "wall_s": 1700}
 
 
 def payloads(rng, n):
@@ -184,6 +184,16 @@ def hostile_forms(canary):
     ])
 
 
+def valid_forms(canary):
+    """valid but unusual values, by JSON type (an option accepts the forms of its own type and rejects
+    the rest): extreme numbers, switches, existing and not yet existing paths, the canary's own name"""
+    return [0, 1, 999, 1001, 4000, 50000, 10 ** 9, -1, True, False, "", "x", canary, ".", "sub", "..",
+            [], ["."], ["sub", canary], [".f90", ".F90"], {}, {"A": "1"}]
+
+
+NVALID = 22
+
+
 def zoo_sched(i):
     """enumerated: option number i % ZOO_OPTS of the tree under test x hostile form i // ZOO_OPTS,
     alone in an otherwise valid configuration file, debug log on"""
@@ -192,12 +202,16 @@ def zoo_sched(i):
         return None
     opt = opts[i % ZOO_OPTS]
     c3 = f"{ROOT}/canary_zoo{i}"
-    cfg = {opt: hostile_forms(c3)[(i // ZOO_OPTS) % NFORMS]}
-    if opt != "debug_log":
+    k = i // ZOO_OPTS
+    cfg = {opt: hostile_forms(c3)[k] if k < NFORMS else valid_forms(c3)[(k - NFORMS) % NVALID]}
+    if opt != "debug_log" and i % 2 == 0:
         cfg["debug_log"] = True
     name = f"{ROOT}/src_{i}.f90"
     src = f"module zoo_{i}\n  integer :: v\nend module zoo_{i}\n"
-    tree = {f"{ROOT}/victim.f90": "module victim\nend module victim\n", name: src,
+    if i % 23 == 3:
+        # a source beyond every "only worth it for big files" threshold
+        src = f"module zoo_{i}\n" + "".join(f"  integer :: v{j}\n" for j in range(6000)) + f"end module zoo_{i}\n"
+    tree = {f"{ROOT}/victim.f90": "module victim\nend module victim\n", name: src, f"{ROOT}/sub/": "",
             f"{ROOT}/{['.fortlsrc', '.fortls.json', '.fortls'][i % 3]}": json.dumps(cfg)}
     ops = [gen.initialize(0), gen.initialized(), gen.did_open(name, src),
            gen.req(1, "textDocument/documentSymbol", {"textDocument": {"uri": gen.uri(name)}}),
@@ -212,7 +226,7 @@ def zoo_sched(i):
 def gen_sched(g):
     rng = base.rng_for(g)
     i = g["i"]
-    if i < ZOO_OPTS * NFORMS:
+    if i < ZOO_OPTS * (NFORMS + NVALID):
         z = zoo_sched(i)
         if z is not None:
             return z
